@@ -48,8 +48,16 @@ class EntityHarness:
         self.OutOfBoundValue = OutOfBoundValue
         self.BufferUnderflow = BufferUnderflow
 
+    @classmethod
+    def builder_kwargs(cls, opts):
+        return dict(regions=opts["regions"], max_array=opts["max_array"])
+
+    @classmethod
+    def hints(cls, entity_cls):
+        return ()
+
     def build(self, c):
-        b = shapes.Builder(c, self.shape, regions=self.opts["regions"], max_array=self.opts["max_array"])
+        b = shapes.Builder(c, self.shape, **self.builder_kwargs(self.opts))
         x = b.entity(self.cls)
         c.notes["builder"] = b
         c.notes["instance"] = x
@@ -77,11 +85,13 @@ class EntityHarness:
 
     def witness(self, c, model, clause, info):
         b = c.notes["builder"]
-        m = shapes.prefer_small(c, b.leaves, extra=None) if False else model
-        # try to get a small model that still violates: the engine already holds pc; the
-        # negated clause is not on the solver, so re-solve with it when available
-        neg = c.notes.get("neg_clause")
-        inst = shapes.concretise(c.notes["instance"], m)
+        # prefer a model with small payload lengths (so the witness can be replayed concretely)
+        m = shapes.prefer_small(c, b.leaves, extra=c.notes.get("neg_clause")) or model
+        try:
+            inst = shapes.concretise(c.notes["instance"], m)
+        except shapes.TooLarge:
+            raise
+        c.notes["witness_model"] = m
         w = {"class": shapes.class_id(self.cls), "instance": shapes.to_jsonable(inst), "shape": self.shape}
         for k in ("tail", "cut"):
             if k in c.notes:
@@ -178,6 +188,8 @@ HARNESS = {"C01": C01, "C02": C02, "C06": C06}
 
 def task_class(args):
     prop, cid, opts = args
+    if prop not in HARNESS:
+        _load_wire()
     t0 = time.time()
     cls = shapes.class_by_id(cid)
     stats = Stats()
@@ -187,8 +199,9 @@ def task_class(args):
     depth_done = -1
     cur_depth = 0
     exhausted = True
-    for shape, depth in shapes.shape_schedule(cls, opts["max_shapes"], opts["max_dev"], regions=opts["regions"],
-                                              max_array=opts["max_array"]):
+    H = HARNESS[prop]
+    hints = H.hints(cls)
+    for shape, depth in shapes.shape_schedule(cls, opts["max_shapes"], opts["max_dev"], **H.builder_kwargs(opts)):
         if depth != cur_depth:
             depth_done = cur_depth
             cur_depth = depth
@@ -208,7 +221,7 @@ def task_class(args):
                     val[1] += 1
 
         explore(h, max_paths=opts["per_shape_paths"], stats=stats, deadline=deadline, range_bound=opts["max_array"] + 1,
-                on_path=on_path)
+                on_path=on_path, hints=hints)
         nshapes += 1
         if nshapes == 1 and stats.paths and not stats.samples:
             stats.samples.append({"class": cid, "shape": "base", "paths": stats.paths})
@@ -245,7 +258,17 @@ def validate_path(c):
     return buf.getvalue() == sym
 
 
+def _load_wire():
+    from . import wire  # registers C03/C05 in HARNESS
+
+    return wire
+
+
 FUNCTIONS = {
+    "C03": ["kio.serial._parse.entity_reader (incl. tagged-field loop and implicit defaults)", "kio.serial.readers.*",
+            "kio.serial._implicit_defaults.*", "kio.static.primitive (TZAware, predicates)", "generated dataclass __eq__"],
+    "C05": ["kio.serial._parse.entity_reader", "kio.serial._serialize.entity_writer", "kio.serial.readers.*", "kio.serial.writers.*",
+            "kio.static.primitive (TZAware.truncate, predicates)"],
     "C01": ["kio.serial._serialize.entity_writer", "kio.serial._parse.entity_reader", "kio.serial.writers.*", "kio.serial.readers.*",
             "kio.serial._introspect.*", "kio.serial._implicit_defaults.*", "kio.static._phantom.Phantom.__instancecheck__/parse",
             "generated dataclass __eq__ of every schema class"],
@@ -255,9 +278,13 @@ FUNCTIONS = {
 }
 
 
-def check(prop, tier):
+LEMMA_MODULE = {"C05": "kv.props.c05l"}
+
+
+def check(prop, tier, extra_tasks=None, assumptions=None):
     import sys
 
+    _load_wire()
     from .. import install, runner
     from ..core import Stats
 
@@ -288,6 +315,22 @@ def check(prop, tier):
         val_mismatch += r.get("validation_mismatch", 0)
         per_class.append((r["class"], st.paths, r["shapes"]))
     inconclusive = []
+    lemma_rows = []
+    if prop in LEMMA_MODULE:
+        import importlib
+
+        from ..lemma import task_lemma
+
+        lm = importlib.import_module(LEMMA_MODULE[prop])
+        ltasks = [(LEMMA_MODULE[prop], name, bool((e[1] if isinstance(e, tuple) else {}).get("rmode")), {}) for name, e in lm.LEMMAS]
+        for r in runner.pool_map(task_lemma, ltasks):
+            st = Stats.from_json(r["stats"])
+            total.merge(st)
+            lemma_rows.append({"lemma": r["lemma"], "paths": st.paths, "queries": st.queries, "outcomes": st.outcomes})
+            if st.paths == 0:
+                inconclusive.append(f"lemma {r['lemma']}: no path completed (vacuous)")
+            if st.capped:
+                inconclusive.append(f"lemma {r['lemma']}: cap hit")
     if total.unsupported:
         inconclusive.append(f"{total.unsupported} path(s) could not be followed by the engine: {list(total.unsupported_msgs.items())[:5]}")
     if val_mismatch:
@@ -309,9 +352,11 @@ def check(prop, tier):
                  "payload content (opaque; A3)"],
         rule="one state = one completed symbolic path of the real reader/writer for one (class, shape); distinct by construction (DFS over decision prefixes)",
         extra={"classes_checked": len(targets), "schedules_exhausted": exhausted, "complete_deviation_depth_histogram": {str(k): v for k, v in depth_hist.items()},
+               "primitive_wire_domain_lemmas": lemma_rows,
                "trace_validations": validated, "rebinding_report": {k: v for k, v in rep.items() if k != "__keep__" and v},
                "source_hashes": install.source_hashes()})
     cov["traces_validated_against_impl"] = validated
     samples = total.samples[:5] + [{"class": c, "paths": p, "shapes": s} for c, p, s in per_class[:3]]
-    return runner.finish(prop, tier, t0, level="model_checking", coverage=cov, assumptions=["A1", "A3", "A4", "A7", "A8"],
+    assume = {"C03": ["A1", "A2", "A3", "A4", "A5q", "A7", "A8"], "C05": ["A1", "A3", "A4", "A5", "A5q", "A7", "A8"]}.get(prop, ["A1", "A3", "A4", "A7", "A8"])
+    return runner.finish(prop, tier, t0, level="model_checking", coverage=cov, assumptions=assume,
                          cex=total.cex, inconclusive=inconclusive, samples=samples)
